@@ -198,11 +198,20 @@ def conflict_violation(what, first, second, setting):
 # ---------------------------------------------------------------------------
 # tabular API
 
-def xy_tables():
+def xy_tables(gappy=False):
     import pandas as pd
     idx = pd.bdate_range("2022-01-03", periods=14)
     X = pd.DataFrame({"f1": np.linspace(0.1, 1.4, 14) ** 2, "f2": np.cos(np.arange(14))}, index=idx)
     Y = pd.DataFrame({"a": 100 + np.arange(14) * 1.5 + np.sin(np.arange(14)), "b": 50 - np.arange(14) * 0.5}, index=idx)
+    if gappy:
+        # low-frequency feature (observed every third row), an isolated NaN, a row missing from X altogether and
+        # a NaN price: whatever fills these gaps must not look at later rows
+        for r in range(14):
+            if r % 3:
+                X.iloc[r, 0] = np.nan
+        X.iloc[8, 1] = np.nan
+        X = X.drop(idx[5])
+        Y.iloc[7, 1] = np.nan
     return X, Y, idx
 
 
@@ -232,7 +241,8 @@ def xy_cases(tier):
         for window in ((1, 2) if tier == "quick" else (1, 2, 3)):
             for te in ((5,) if tier == "quick" else (4, 6)):
                 for cut in range(te + 1, 12, 2 if tier == "quick" else 1):
-                    out.append((transformer, window, te, cut))
+                    for gappy in (False, True):
+                        out.append((transformer, window, te, cut, gappy))
     return out
 
 
@@ -254,21 +264,22 @@ def perturbations(tier, n_after):
 def apply_pattern(X, Y, idx, cut, pat):
     import pandas as pd
     X2, Y2 = X.copy(), Y.copy()
+    xrow = lambda row: X2.index.get_indexer([idx[row]])[0]
     if pat == "append":
         extra = pd.bdate_range(idx[-1] + pd.Timedelta(days=1), periods=2)
         X2 = pd.concat([X2, pd.DataFrame({"f1": [9.0, -9.0], "f2": [3.0, 4.0]}, index=extra)])
         Y2 = pd.concat([Y2, pd.DataFrame({"a": [10.0, 500.0], "b": [70.0, 5.0]}, index=extra)])
         return X2, Y2
     if pat == "truncate":
-        return X2.iloc[:cut + 2], Y2.iloc[:cut + 2]
+        return X2.loc[:idx[cut + 1]], Y2.loc[:idx[cut + 1]]
     for r, (xa, ya) in enumerate(pat):
         row = cut + 1 + r
         if row >= len(idx):
             break
-        if xa == "alt":
-            X2.iloc[row] = [7.5, -3.0]
-        elif xa == "nan":
-            X2.iloc[row] = [np.nan, np.nan]
+        if xa == "alt" and xrow(row) >= 0:
+            X2.iloc[xrow(row)] = [7.5, -3.0]
+        elif xa == "nan" and xrow(row) >= 0:
+            X2.iloc[xrow(row)] = [np.nan, np.nan]
         if ya == "alt":
             Y2.iloc[row] = [17.0, 140.0]
         elif ya == "nan":
@@ -280,17 +291,17 @@ def _xy_work(chunk):
     memo_calendars()
     out = {"evaluations": 0, "violations": [], "nontrivial": 0}
     tier = chunk[0][-1]
-    X, Y, idx = xy_tables()
-    for (transformer, window, te, cut, _tier) in chunk:
+    for (transformer, window, te, cut, gappy, _tier) in chunk:
+        X, Y, idx = xy_tables(gappy)
         try:
             base = xy_trace(X, Y, transformer, idx[te], window, idx[cut])
         except Exception as ex:
-            out["violations"].append(({"part": "xy", "transformer": transformer, "window": window, "te": te, "cut": cut, "pattern": None},
+            out["violations"].append(({"part": "xy", "transformer": transformer, "window": window, "te": te, "cut": cut, "pattern": None, "gappy": gappy},
                                       "unperturbed tabular run raised %r" % (ex,), ("xy-base", transformer)))
             continue
         for pat in perturbations(tier, len(idx) - 1 - cut):
             X2, Y2 = apply_pattern(X, Y, idx, cut, pat)
-            case = {"part": "xy", "transformer": transformer, "window": window, "te": te, "cut": cut,
+            case = {"part": "xy", "transformer": transformer, "window": window, "te": te, "cut": cut, "gappy": gappy,
                     "pattern": pat if isinstance(pat, str) else [list(r) for r in pat], "tier": tier}
             try:
                 got = xy_trace(X2, Y2, transformer, idx[te], window, idx[cut])
@@ -349,7 +360,7 @@ def run(tier, **kw):
                     "(observations, rewards, trades, holdings, NLV, track-record entries, recorded callbacks) at each step is filed under the events stamped <= t, "
                     "and the next execution's trades under the events stamped <= t+latency; a prefix class holding two different outputs is a violation. "
                     "tabular: TradingEnvXY x transformer {none, z-score, yeo-johnson} x window x fit date x cut date x perturbation patterns of the next rows of X "
-                    "and Y {keep, replace, NaN} + appended rows + truncation; distinct_nontrivial = prefix classes + perturbed tabular runs" % nbars)
+                    "and Y {keep, replace, NaN} + appended rows + truncation, on a complete table and on a gappy one (low-frequency feature, isolated NaN, a row missing from X, a NaN price); distinct_nontrivial = prefix classes + perturbed tabular runs" % nbars)
     rep.set("samples", [{"part": "core", "setting": [30, 1, "late", "all", 0, "features"], "nbars": nbars, "bits": 37, "extra": [4, "Q", 0]},
                         {"part": "xy", "transformer": "z-score", "window": 2, "te": 5, "cut": 7, "pattern": [["alt", "nan"], ["keep", "keep"]]}])
     rep.assumptions = ["decided for the library's own features, a recording feature and the windowed State; user-written features are code the check cannot quantify over",
@@ -369,7 +380,7 @@ def replay(case, **kw):
                 msgs.append("different %s for two streams agreeing up to the cut: %s vs %s" % (what, first, second))
         return msgs
     memo_calendars()
-    X, Y, idx = xy_tables()
+    X, Y, idx = xy_tables(case.get("gappy", False))
     base = xy_trace(X, Y, case["transformer"], idx[case["te"]], case["window"], idx[case["cut"]])
     if case["pattern"] is None:
         return []
